@@ -908,10 +908,13 @@ Definition instruction : parser node :=
    end) ;;;
   if match cmd with Some c => c_meta c && c_litstr c | None => false end then
     c <- get ;;
-    let text := strip (line_of (rest c)) in
+    let line := line_of (rest c) in
+    let text := strip line in
     match text with
     | [] => done []
-    | _ => skip_ws ;;; cbm <- get ;;
+    | _ => (* ctx.pos += len(line) - len(line.lstrip()): only the blanks before the text (which may begin with ';') *)
+           set_ctx (advance (length line - length (strip_left line)) c) ;;;
+           cbm <- get ;;
            set_ctx (advance (length text) cbm) ;;;
            ce <- get ;;
            ret (Insn (pos cs) (pos ce) name_sym [QuotedStr (pos cbm) (pos ce) [] text])
